@@ -213,6 +213,7 @@ static void c08_check_token(World &w, const Token &t)
       case RK_DATA_TTL5: want = { 5 }; break;
       case RK_DATA_TTL0: want = { 0 }; break;
       case RK_DATA_MULTI: want = { 100, 50, 7 }; break;
+      case RK_DATA_SOA: want = { 10, 100 }; break; // authority SOA first (see scan_rr_markers)
       case RK_NODATA: case RK_NXDOMAIN: want = { 60 }; break;
       default: return;
     }
